@@ -18,7 +18,9 @@ package vos
 import (
 	"io/fs"
 	"os"
+	"path/filepath"
 	"sync"
+	"time"
 )
 
 // Crash is the sentinel panic value of an injected crash.
@@ -124,12 +126,28 @@ func ReadFile(name string) ([]byte, error) {
 
 func Stat(name string) (os.FileInfo, error) {
 	if x := cur(); x != nil && x.Read != nil {
-		if _, err, ok := x.Read("Stat", name, x.attempt("Stat", name)); ok && err != nil {
-			return nil, err
+		if d, err, ok := x.Read("Stat", name, x.attempt("Stat", name)); ok {
+			if err != nil {
+				return nil, err
+			}
+			// a scripted (possibly virtual) file: synthesize its FileInfo
+			return fakeInfo{name: filepath.Base(name), size: int64(len(d))}, nil
 		}
 	}
 	return os.Stat(name)
 }
+
+type fakeInfo struct {
+	name string
+	size int64
+}
+
+func (f fakeInfo) Name() string       { return f.name }
+func (f fakeInfo) Size() int64        { return f.size }
+func (f fakeInfo) Mode() os.FileMode  { return 0o644 }
+func (f fakeInfo) ModTime() time.Time { return time.Unix(0, 0) }
+func (f fakeInfo) IsDir() bool        { return false }
+func (f fakeInfo) Sys() any           { return nil }
 
 func ReadDir(name string) ([]os.DirEntry, error) { return os.ReadDir(name) }
 
